@@ -26,6 +26,9 @@ type Program struct {
 func Load(dir string, patterns []string, overlay map[string][]byte, env []string) (*Program, error) {
 	pruneExternals()
 	installExternals()
+	for _, f := range extraInstallers {
+		f()
+	}
 	cfg := &packages.Config{Mode: packages.LoadAllSyntax, Dir: dir, Overlay: overlay, Env: append(os.Environ(), env...)}
 	pkgs, err := packages.Load(cfg, patterns...)
 	if err != nil {
